@@ -193,10 +193,17 @@ class Impl:
         self.cls = getattr(mod, cinfo['name'])
         self.name = cinfo['name']
         self.desc = {d['name']: d for d in table if d['cls'] == cinfo['name']}
-        self.member_kind = MEMBER_KIND.get(self.name, cinfo['accepted'][0] if cinfo['accepted'] else 'Observer0D')
+        # the group's member type is what the *running* class declares (the translator's reading of the add method is
+        # cross-checked in translator_vs_runtime and by `classes_declared`; it must not decide which observers we build)
+        rt = getattr(self.cls, '_OBSERVER_TYPE', None)
+        declared = rt.__name__ if rt is not None else (cinfo['accepted'][0] if cinfo['accepted'] else 'SightLine')
+        if declared == 'Observer0D':
+            declared = 'SightLine'          # Observer0D itself is abstract (observe() not implemented)
+        self.accepted_rt = (rt,) if rt is not None else None
+        self.member_kind = MEMBER_KIND.get(self.name, declared)
         self.spectro = self.member_kind.startswith('Spectroscopic')
         self.pools = value_pools(rng, self.spectro)
-        self.wrong_kinds = WRONG_KIND.get(cinfo['accepted'][0] if cinfo['accepted'] else '', ['int'])
+        self.wrong_kinds = WRONG_KIND.get(rt.__name__ if rt is not None else (cinfo['accepted'][0] if cinfo['accepted'] else ''), ['int'])
         self.scratch = make_member(self.member_kind, 'scratch')
         self._scratch_pipes = list(getattr(self.scratch, 'pipelines', []))
         attrs = ['name']
@@ -810,31 +817,125 @@ def translator_vs_runtime(ctx, sc):
 
 # =====================================================================================================================
 # S: direct oracles, no model
+def guarded(ctx, what, f, default=None):
+    """run one oracle; an exception while preparing inputs / reference values is an *observation* (the implementation no
+    longer lets the harness do what works on the unchanged tree): recorded as a broken stream, never propagated"""
+    try:
+        return f()
+    except Exception as e:  # noqa
+        import traceback
+        ctx.count('S:oracle-not-evaluable')
+        ctx.broke('correspondence', 'C15 oracle %s could not be evaluated (%s)' % (what, exc_kind(e)),
+                  dict(trace=traceback.format_exc()[-1500:]))
+        return default
+
+
 def search(ctx, sc, only=None):
     rng = ctx.rng
     U = Universe()
     for c in sc['classes']:
         if only and c['name'] != only[0]:
             continue
-        mod = importlib.import_module(c['file'][:-3].replace('/', '.'))
-        cls = getattr(mod, c['name'])
-        im = Impl(c, sc['table'], U, rng)
-        props = [k for k, v in inspect.getmembers(cls, lambda x: isinstance(x, property)) if not k.startswith('_')]
+        made = guarded(ctx, 'setup of ' + c['name'], lambda: _setup(c, sc, U, rng))
+        if made is None:
+            continue
+        cls, im, props = made
         for attr in props:
             if only and (c['name'], attr) != tuple(only[:2]):
                 continue
             if attr == 'slits':
                 continue
+            what = '%s.%s' % (c['name'], attr)
             if attr in MEMBER_LIST_ATTRS:
-                search_alias_members(ctx, im, cls, attr)
+                guarded(ctx, what + ' aliasing', lambda: search_alias_members(ctx, im, cls, attr))
                 continue
             for n in (0, 1, 3, 4):
-                if not search_attr(ctx, im, cls, attr, n):
+                if not guarded(ctx, what, lambda: search_attr(ctx, im, cls, attr, n), default=False):
                     break
             else:
-                search_alias_values(ctx, im, cls, attr)
-        if not only or only[1] in ('__getitem__', 'add', 'observe', 'parent'):
-            search_membership(ctx, im, cls)
+                guarded(ctx, what + ' aliasing', lambda: search_alias_values(ctx, im, cls, attr))
+        if not only or only[1] in ('__getitem__', 'add', 'observe', 'parent', 'add_observer', 'add_sight_line', 'add_foil_detector', '__init__'):
+            guarded(ctx, c['name'] + ' type filter', lambda: search_type_filter(ctx, im, cls))
+            guarded(ctx, c['name'] + ' membership', lambda: search_membership(ctx, im, cls))
+
+
+def _setup(c, sc, U, rng):
+    mod = importlib.import_module(c['file'][:-3].replace('/', '.'))
+    cls = getattr(mod, c['name'])
+    im = Impl(c, sc['table'], U, rng)
+    props = [k for k, v in inspect.getmembers(cls, lambda x: isinstance(x, property)) if not k.startswith('_')]
+    return cls, im, props
+
+
+class _PlainObserver0D(object):
+    """built lazily: a concrete Observer0D subclass that is none of the group member types"""
+    cls = None
+
+    @classmethod
+    def make(cls_):
+        if cls_.cls is None:
+            from raysect.optical.observer import Observer0D
+
+            class PlainObserver0D(Observer0D):
+                pass
+            cls_.cls = PlainObserver0D
+        from raysect.optical.observer import PowerPipeline0D
+        return cls_.cls(pipelines=[PowerPipeline0D()])
+
+
+CANDIDATE_KINDS = ('SightLine', 'FibreOptic', 'Pixel', 'TargettedPixel', 'SpectroscopicSightLine', 'SpectroscopicFibreOptic',
+                   'BolometerFoil', 'PlainObserver0D', 'Sphere', 'int')
+
+
+def search_type_filter(ctx, im, cls):
+    """"only observers of the group's type are accepted": every entry point (add method, its alias, the constructor's
+    `observers=` argument, the member-list setters) x every concrete candidate type.  The group's type is what the running
+    class declares (`_OBSERVER_TYPE`; BolometerFoil / BolometerIRVB for the camera).  A candidate of the type must be
+    accepted; any other must be rejected by an exception, must not become a member and must not be re-parented."""
+    if im.accepted_rt is not None:
+        accepted = im.accepted_rt
+    else:
+        from cherab.tools.observers.bolometry import BolometerFoil, BolometerIRVB
+        accepted = (BolometerFoil, BolometerIRVB)
+    add_names = [a for a in ('add_observer', 'add_sight_line', 'add_foil_detector') if hasattr(cls, a)]
+    entries = [(a, (lambda g, o, a=a: getattr(g, a)(o))) for a in add_names]
+    entries += [(ml, (lambda g, o, ml=ml: setattr(g, ml, [o]))) for ml in im.mlist]
+    if im.c['family'] == 'observer0D':
+        entries.append(('__init__', None))
+    for kind in CANDIDATE_KINDS:
+        for entry, f in entries:
+            cand = _PlainObserver0D.make() if kind == 'PlainObserver0D' else make_member(kind, 'cand')
+            own = isinstance(cand, accepted)
+            good = make_member(im.member_kind, 'good')
+            ctx.case(key=('S', im.name, 'type-filter', entry, kind))
+            if entry == '__init__':
+                g = None
+                try:
+                    g = cls(observers=[good, cand])
+                    st = 'ok'
+                except Exception as e:  # noqa
+                    st = ename(exc_kind(e))
+                members = im.members(g) if g is not None else []
+            else:
+                g = cls()
+                im.add(g, good)
+                st = outcome(lambda: f(g, cand))
+                members = im.members(g)
+            is_member = any(m is cand for m in members)
+            adopted = g is not None and getattr(cand, 'parent', None) is g
+            rep = dict(cls=im.name, attr=entry, candidate=kind, outcome=st)
+            if own:
+                if st != 'ok' or not is_member or not adopted:
+                    ctx.fail('C15:%s.%s:rejects-own-type' % (im.name, entry), '%s.%s refuses a %s although it is a %s (%s)' % (
+                        im.name, entry, kind, '/'.join(a.__name__ for a in accepted), st), rep)
+                    return
+            else:
+                unchanged = entry == '__init__' or (entry in im.mlist and _same_objs(members, [good])) or _same_objs(members, [good])
+                if st == 'ok' or is_member or adopted or not unchanged:
+                    ctx.fail('C15:%s.%s:accepts-wrong-type' % (im.name, entry),
+                             '%s.%s with a %s (not a %s): outcome %s, became a member: %s, re-parented to the group: %s' % (
+                                 im.name, entry, kind, '/'.join(a.__name__ for a in accepted), st, is_member, adopted), rep)
+                    break        # one report per (class, entry point) is enough; try the next candidate kind
 
 
 def _ref(im, mattr, v):
@@ -844,6 +945,14 @@ def _ref(im, mattr, v):
         return im.U.canon(mattr, getattr(im.scratch, mattr))
     finally:
         im.unshare(mattr)
+
+
+def _has(im, mattr):
+    try:
+        getattr(im.scratch, mattr)
+        return True
+    except Exception:  # noqa
+        return False
 
 
 def search_attr(ctx, im, cls, attr, n):
@@ -876,6 +985,8 @@ def search_attr(ctx, im, cls, attr, n):
     if got != want:
         ctx.fail(sig + 'read', 'group.%s returns %s but the members\' %s are %s (n=%d)' % (attr, got, mattr, want, n), dict(rep, clause='read'))
         return False
+    if not _has(im, mattr):
+        return True            # a lone observer of the member type has no such attribute: no reference to compare with
     desc = im.desc.get(attr)
     kinds = []
     if desc and desc['setter'] and desc['setter'].get('test'):
@@ -1136,18 +1247,6 @@ def search_membership(ctx, im, cls):
             if o.parent is not g or o not in g.children:
                 ctx.fail(sig + 'parent', 'member of %s whose scene-graph parent is not the group' % im.name, dict(cls=im.name, attr='parent', n=n))
                 break
-        for wk in im.wrong_kinds:
-            w = make_member(wk)
-            before = [id(o) for o in im.members(g)]
-            st = outcome(lambda: im.add(g, w))
-            if st == 'ok' or [id(o) for o in im.members(g)] != before:
-                ctx.fail(sig + 'add:type-filter', '%s accepted a %s (%s)' % (im.name, wk, st), dict(cls=im.name, attr='add', wrong=wk))
-                break
-            for ml in im.mlist:
-                st = outcome(lambda: setattr(g, ml, [w]))
-                if st == 'ok' or [id(o) for o in im.members(g)] != before:
-                    ctx.fail(sig + ml + ':type-filter', '%s.%s = [%s] accepted (%s)' % (im.name, ml, wk, st), dict(cls=im.name, attr=ml, wrong=wk))
-                    break
         # observe: every member exactly once
         if ms:
             world = World()
@@ -1207,11 +1306,13 @@ def run(ctx, only=None):
             b['inadmissible'] = ['%s.%s' % p for p in bad_pairs]
 
     # 3. K
-    n_rt = translator_vs_runtime(ctx, sc)
+    n_rt = guarded(ctx, 'translator-vs-runtime', lambda: translator_vs_runtime(ctx, sc), default=0)
     U = Universe()
     t = Trace(ctx)
     for c in sc['classes']:
-        im = Impl(c, sc['table'], U, ctx.rng)
+        im = guarded(ctx, 'K setup of ' + c['name'], lambda: Impl(c, sc['table'], U, ctx.rng))
+        if im is None:
+            continue
         for stream, f in (('sweep', lambda: sweep(ctx, im, t)), ('membership', lambda: membership(ctx, im, t)),
                           ('random', lambda: random_histories(ctx, im, t, ctx.n(12, 1200), ctx.n(25, 40)))):
             try:
